@@ -594,7 +594,7 @@ class DemandSource(object):
 			The demand value.
 
 		"""
-		return float(np.random.uniform(self.lo, self.hi - self.lo))
+		return float(np.random.uniform(self.lo, self.hi))
 
 	def _generate_demand_negative_binomial(self):
 		"""Generate demand from negative binomial distribution.
